@@ -11,14 +11,19 @@ PROPS = {
     "C18": {
         "claimed": True,
         "title": "Send hands over exactly the requested amount, fees included when asked",
-        "lean": ["Gonuts.Props.C18", "Gonuts.Tie.Consts"],
-        "streams": ["arith"],
+        "lean": ["Gonuts.Props.C18", "Gonuts.Tie.Select", "Gonuts.Tie.Consts"],
+        "streams": ["arith", "select"],
+        "thorough_shards": {"arith": 1, "select": 2},
         "level": "proof",
-        "technique": "Lean 4 theorems over Model.Select/Model.Amount (UInt64 semantics) + differential correspondence with the real wallet selection code",
-        "design_ref": "DESIGN.md §5 C18",
-        "text": "",
-        "note": "",
-        "assumptions": COMMON_ASSUME,
+        "technique": "Lean 4 theorems over an executable UInt64 model of the wallet's coin selection / fee / split code (Model.Select, Model.Amount; every multiset, amount, ppk and every tie-breaking of Go's unstable sort); the model is tied to /repo statically (Tie.Select: go/printer text of every mirrored function and the swapToSend amount statements, by rfl) and differentially (stream select: real selectProofsToSend / selectProofsForAmount / feesForProofs / feesForCount / splitWalletTarget / calculateBlankOutputs / AmountSplit through verif-tagged hooks vs the Lean driver, blind and by oracle replay of Go's tie-breaking) plus model-free monitors",
+        "design_ref": "DESIGN.md §4.5, §5 C18, §6 K6",
+        "text": "Pure part of C18. Proved for all inputs at uint64 semantics: AmountSplit sums to its input and is strictly ascending powers of two; feesForCount/feesForProofs/TransactionFees = ceil(sum ppk/1000) (wrap case stated); a successful selection is a sub-multiset of the holdings worth >= amount + fee(selected) (select_sound, no-wrap hypotheses explicit, wrap counterexample given); the offline path hands over exactly amount + fee(those proofs) (send_exact_offline); the swap path without fees hands over exactly amount (send_exact_swap_nofee); selectProofsToSend never refuses an amount that holdings minus the fee of spending every proof cover, through the wrapping remainingAmount subtraction, every ppk (send_succeeds_toSend), hence Send cannot fail for a wallet without inactive-keyset proofs (send_succeeds_no_inactive). FALSE on the code as it is, each with a decide-checked witness, a partial theorem under the exact extra hypothesis, and a replay against the real code on every run: send_exact_fee (K6: the fee estimate is itself split into popcount(fee) proofs) and send_succeeds with inactive-keyset proofs (inner selection error dropped together with every inactive proof; fee rounded up once per part).",
+        "note": "The end-to-end clause (recipient nets the amount after redeeming at a real mint; proofs unspent, distinct, removed from the balance) is decided by the send stream / C17 wallet model, not here. calculateBlankOutputs is compared exactly only where its float evaluation is provably the integer function (x < 2^48 or float64(x) a power of two); above, Go's math.Log2 rounds down to the integer for x slightly above 2^k (k >= 49) and returns one less than ceil(log2 x) - irrelevant for real fee reserves.",
+        "assumptions": COMMON_ASSUME + [
+            "Go's sort.Slice is modelled as an arbitrary pair of functions returning a permutation of their input (it is a deterministic function of the sequence of amounts); theorems hold for all such functions; the driver uses a stable sort and, for replay, a sorter that breaks ties in the order Go picked",
+            "uint/uint64 are 64-bit (amd64); math.Pow(2, i) is exact for i < 60",
+            "no-wrap hypotheses of the N-valued statements: holdings + fee of spending them all < 2^64, sum of ppk + 999 < 2^64, amount + fees < 2^64 (the uint64-level statements need none)",
+        ],
     },
     "C10": {
         "claimed": True,
